@@ -54,6 +54,7 @@ var c19cur = c19default
 var (
 	c19when   []time.Time
 	c19layout = "Jan02 15:04"
+	c19maybe  []c19post // posts of the running case that were sent while the board file could not be written, and not acknowledged
 )
 
 // expectedPost renders a post the way the protocol's board format prescribes, with the
@@ -108,10 +109,11 @@ func c19verifyBoard(board []byte, initial []byte, posts []c19post) string {
 	if !bytes.Equal(rest, initial) {
 		return fmt.Sprintf("after %d post blocks the board continues with %d bytes that are not the initial text (%d bytes); first difference at %d", len(blocks), len(rest), len(initial), firstDiff(rest, initial))
 	}
-	if len(blocks) != len(posts) {
-		return fmt.Sprintf("board holds %d posts, %d were acknowledged", len(blocks), len(posts))
+	if len(blocks) < len(posts) || len(blocks) > len(posts)+len(c19maybe) {
+		return fmt.Sprintf("board holds %d posts, %d were acknowledged (and %d more were sent but not acknowledged)", len(blocks), len(posts), len(c19maybe))
 	}
 	used := make([]bool, len(posts))
+	usedMaybe := make([]bool, len(c19maybe))
 	for bi, b := range blocks {
 		found := false
 		for i, p := range posts {
@@ -120,8 +122,19 @@ func c19verifyBoard(board []byte, initial []byte, posts []c19post) string {
 				break
 			}
 		}
+		for i, p := range c19maybe {
+			// a post that was sent but never acknowledged (its write failed) may be on the board or not
+			if !found && !usedMaybe[i] && postMatches(b, p.name, p.text) {
+				usedMaybe[i], found = true, true
+			}
+		}
 		if !found {
 			return fmt.Sprintf("post block %d of the board (%d bytes: %q...) is not one of the acknowledged posts in the protocol's format", bi, len(b), b[:min(len(b), 60)])
+		}
+	}
+	for i, p := range posts {
+		if !used[i] {
+			return fmt.Sprintf("acknowledged post %d by %s is not on the board", p.id, p.name)
 		}
 	}
 	return ""
@@ -203,7 +216,9 @@ func c19prop(ev *evid.Rec) func(rt *rapid.T) {
 		if strings.Contains(variant, "date") {
 			c19layout = c19customDate
 		}
-		defer func() { c19cur, c19when, c19layout = c19default, nil, "Jan02 15:04" }()
+		c19maybe = nil
+		defer func() { c19cur, c19when, c19layout, c19maybe = c19default, nil, "Jan02 15:04", nil }()
+		failedPost := rapid.IntRange(0, 3).Draw(rt, "failedPost") == 0
 		// the time of day at which the case plays (the bubble's clock starts at midnight)
 		startAfter := time.Duration(rapid.IntRange(0, 24*60-1).Draw(rt, "startMinuteOfDay")) * time.Minute
 		opt := hlsim.Options{Agreement: string(agreement), Board: string(initial), Accounts: []hlsim.AccountSpec{acct("admin", "Admin", "adminpw", func() hlref.Access { a := hlref.AllAccess().Defined(); a.Clear(hlref.PrivNoAgreement); return a }())}}
@@ -231,6 +246,37 @@ func c19prop(ev *evid.Rec) func(rt *rapid.T) {
 			time.Sleep(startAfter)
 			for ri, rd := range rounds {
 				c19when = append(c19when, time.Now())
+				if failedPost && ri == (len(rounds)+1)/2 {
+					// a post arrives while the board file cannot be rewritten (something sits where the temporary file goes).
+					// Whether that post makes it is the server's business - it is not acknowledged, so nothing is claimed about
+					// it; but the fault is over afterwards and everything that follows is served as usual
+					tmp := filepath.Join(w.Cfg, "MessageBoard.txt.tmp")
+					os.RemoveAll(tmp)
+					must(os.MkdirAll(filepath.Join(tmp, "in the way"), 0o755))
+					id++
+					lost := c19post{id: 9000 + ri, name: "c0", text: []byte(fmt.Sprintf("post-%d sent while the board could not be saved", 9000+ri))}
+					r := cs[0].Request(hlref.TranOldPostNews, fld(hlref.FData, lost.text))
+					must(os.RemoveAll(tmp))
+					if okReply(r) {
+						acked = append(acked, lost) // acknowledged: then it is a post like any other (on disk, kept)
+					} else {
+						c19maybe = append(c19maybe, lost)
+					}
+					for _, c := range cs {
+						c.TakeInbox()
+					}
+					// the next post that is acknowledged brings the file up to date with what the server holds
+					id++
+					sync := c19post{id: 9500 + ri, name: "c0", text: []byte(fmt.Sprintf("post-%d after the fault", 9500+ri))}
+					if r := cs[0].Request(hlref.TranOldPostNews, fld(hlref.FData, sync.text)); !okReply(r) {
+						rt.Fatalf("round %d: after a post that failed because the board file could not be written, the next post is not acknowledged: %s", ri, replySummary(r))
+					}
+					acked = append(acked, sync)
+					for _, c := range cs {
+						c.TakeInbox()
+					}
+					c19when = append(c19when, time.Now())
+				}
 				if failedReload && ri == len(rounds)/2 {
 					// a reload is requested while the board file cannot be read (moved aside by the operator's editor): the
 					// reload fails, and the board the server holds - every post so far - stays what it was
@@ -376,7 +422,7 @@ func c19prop(ev *evid.Rec) func(rt *rapid.T) {
 				overlap = true
 			}
 		})
-		ev.Case(evid.Hash(boardSize, agreeSize, fmt.Sprint(rounds), nlogin, fmt.Sprint(len(texts)), variant, editAgreement, staleTmp, failedReload), overlap, fmt.Sprintf("board:%d", boardSize), fmt.Sprintf("agreement:%d", agreeSize), "post-format:"+variant)
+		ev.Case(evid.Hash(boardSize, agreeSize, fmt.Sprint(rounds), nlogin, fmt.Sprint(len(texts)), variant, editAgreement, staleTmp, failedReload, failedPost), overlap, fmt.Sprintf("board:%d", boardSize), fmt.Sprintf("agreement:%d", agreeSize), "post-format:"+variant)
 		if overlap && ev.WantSample() {
 			ev.Sample(map[string]any{"engine": "bubble", "board_bytes": boardSize, "agreement_bytes": agreeSize, "rounds(readers/posters by client)": fmt.Sprint(rounds), "simultaneous_logins": nlogin})
 		}
